@@ -23,6 +23,8 @@ func init() {
 
 func runC12(p *eng.Prog, r *eng.Report, tier string) {
 	c := &cx{p, r, tier}
+	// C12.6 the id the bind answer repeats is the request's own id attribute
+	ownAttrLookups(c, "C12.6", func(f *eng.Fn) bool { return strings.HasPrefix(f.Short, "xmpp.bind") })
 	c12Send(c)
 	c12Expect(c)
 	c12FromStart(c)
@@ -606,7 +608,7 @@ func c12Bind(c *cx) {
 			}
 			return ""
 		}
-		c.r.Check("C12.6", f, "bind response id", "K: the answer carries the id attribute of the request", cl.Pos(), eng.Glob("internal/attr.Get(*.Attr,\"id\")#1", get("ID")), "ID is "+get("ID"))
+		c.r.Check("C12.6", f, "bind response id", "K: the answer carries the own (unqualified) id attribute of the request", cl.Pos(), eng.Glob("internal/attr.Own(*.Attr,\"id\")#1", get("ID")), "ID is "+get("ID"))
 		c.r.Check("C12.6", f, "bind response type", "K: the answer has type result", cl.Pos(), get("Type") == "stanza.ResultIQ", "Type is "+get("Type"))
 		c.r.Check("C12.6", f, "bind response addresses", "K: To/From are the request's From/To", cl.Pos(), eng.Glob("*.IQ.To", get("From")) && eng.Glob("*.IQ.From", get("To")), "From="+get("From")+" To="+get("To"))
 	}
